@@ -1,7 +1,12 @@
 from props import l2_queries as L
 from props.common import *
 from props import C05 as _C05
-QUERIES = [L.REWIND_ROUNDTRIP, L.STEP_FAILED, L.END_OF_SCRIPT, L.CTOR, L.SETUP] + [q for q in _C05.QUERIES if q.name == 'tap_description_m4']
+from vf import Query
+from props import units_batch as UB
+LISTCOUNT = Query('main_listing_sections', 'harness', UB.unit_listing_count, 'h_listing_sections', defines=['VERIF_ITEM_CAP=8'], unwind=12, timeout=600, object_bits=10,
+                  functions=['btcdeb.cpp: main() (fragment: sections and line count of the script listing, from script_ptrs to the allocation of script_lines)'],
+                  bounded='scripts of at most 3 operations each (the count loops are operation-generic; GetOp and the P2SH pattern test are per-script oracles)')
+QUERIES = [L.REWIND_ROUNDTRIP, L.STEP_FAILED, L.END_OF_SCRIPT, L.CTOR, L.SETUP] + [q for q in _C05.QUERIES if q.name == 'tap_description_m4'] + [LISTCOUNT]
 META = {'level': 'other', 'trusted_base': TRUSTED,
  'assumptions': ASSUME_COMMON + [
    "claimed: the position-marker arithmetic only (curr_op_seq): +1 on every successful operation, script-switch and commitment step, unchanged on a failed step and on the finishing step, restored by rewind, 0 in a fresh session",
@@ -9,7 +14,7 @@ META = {'level': 'other', 'trusted_base': TRUSTED,
  ],
  'explanation': 'marker clauses of the L2 session contracts'}
 MANIFEST = {
- 'text': 'Marker invariant, session creation and commitment listing: a session created for an empty first script with a script to follow is not finished (the marker has operations to visit); the i-th line of the commitment listing shows the i-th path node of the control block; the position marker is 0 in a fresh session, advances by exactly one on every successful operation / script-switch step, does not move on a failed step or on the finishing step, and is restored by rewind - for every session state. The listing text itself is outside reach.',
- 'note': 'The listing builder in main() and fn_print are not applicable (iostream/snprintf code in a 500-line main).',
+ 'text': 'Listing sections and length (fragment of main()): the listing has the first script, then the scriptPubKey when there is one, then a P2SH section exactly when the session will evaluate a redeem script (P2SH flag set and P2SH pattern), commitment lines only for tapscript; its length is the number of operations of every section plus one header per later section plus the commitment lines. Marker invariant, session creation and commitment listing: a session created for an empty first script with a script to follow is not finished (the marker has operations to visit); the i-th line of the commitment listing shows the i-th path node of the control block; the position marker is 0 in a fresh session, advances by exactly one on every successful operation / script-switch step, does not move on a failed step or on the finishing step, and is restored by rewind - for every session state. The listing text itself is outside reach.',
+ 'note': 'The TEXT of the listing lines (hex / opcode names, built with snprintf in main()) and fn_print are not applicable; sections and line count are decided (main_listing_sections).',
  'technique': 'assume/assert contracts on the real StepScript(InterpreterEnv&)/RewindScript/InterpreterEnv constructor; CBMC',
  'design_ref': 'DESIGN.md 6 (C12)'}
